@@ -188,3 +188,35 @@ Theorem digest_md5_refuses_without_nonce :
     sasl_digest_md5 challenge jid password rnd = ANull.
 Proof. exact digest_no_nonce. Qed.
 Print Assumptions digest_md5_refuses_without_nonce.
+
+(* the parse hypothesis of digest_md5_matches_rfc2831 holds for every challenge that is base64 of a
+   directive list  key=value  /  key=<double-quoted value>  separated by commas (render), keys without
+   equals sign, quoted values without double quote (commas and spaces allowed inside), unquoted values
+   without comma: the table maps every key to its last value *)
+Theorem digest_challenge_parses :
+  forall ds, ds <> [] -> Forall dir_ok ds -> bytes (render ds) -> ~ In 0 (render ds) ->
+    parse_digest_challenge (encode (render ds)) = AOk (table_of ds []).
+Proof. exact parse_challenge_lemma. Qed.
+Print Assumptions digest_challenge_parses.
+
+(* realm="a, b",nonce=xyz *)
+Example digest_hyps :
+  let ds := [{| d_key := s_realm; d_val := [97; 44; 32; 98]; d_quoted := true |};
+             {| d_key := s_nonce; d_val := [120; 121; 122]; d_quoted := false |}] in
+  Forall dir_ok ds /\ tbl_get s_nonce (table_of ds []) = Some [120; 121; 122] /\
+  chosen_qop (table_of ds []) = s_auth.
+Proof.
+  cbv zeta. split; [|split; reflexivity].
+  repeat constructor; cbn; try tauto; intros K; repeat (destruct K as [K|K]; [discriminate|]); exact K.
+Qed.
+
+(* _make_scram_init_msg for ALL inputs (any binding type / data lengths, any JID): a message or the
+   clean refusal, never an access outside the 56-byte buffer or the allocated message *)
+Theorem scram_init_stays_in_buffers :
+  forall plus secured cbtype cbdata jid rng,
+    match fst (make_scram_init_msg plus secured cbtype cbdata jid rng) with
+    | AOk _ | ANull => True
+    | _ => False
+    end.
+Proof. exact init_safe. Qed.
+Print Assumptions scram_init_stays_in_buffers.
